@@ -958,6 +958,7 @@ func (e *env) emptyContractProof() bool {
 func run(b *harness.B) {
 	if b.Batch == 0 {
 		polyglot(b)
+		partialIndexBinding(b)
 	}
 	nNets := b.Pick(6, 10)
 	blocks := b.Pick(200, 500)
@@ -1013,6 +1014,6 @@ func main() {
 		Run:         run,
 		MinEvals:    5000,
 		MinDistinct: 150,
-		Require:     []string{"attestation_only_transaction_repeated", "empty_contract_proof_pairs", "polyglot_constructions", "era_first_block_cases", "accepted_blocks", "effect_bearing_changes_detected", "exempt_changes_ignored", "derived_ids_in_collision_table", "era_separation_cases", "framing_pairs", "block_mutations_changing_the_id", "block_mutations_rejected_with_same_id", "parent_state_fields_changed_under_a_v2_block"},
+		Require:     []string{"attestation_only_transaction_repeated", "empty_contract_proof_pairs", "polyglot_constructions", "era_first_block_cases", "accepted_blocks", "effect_bearing_changes_detected", "exempt_changes_ignored", "derived_ids_in_collision_table", "era_separation_cases", "framing_pairs", "block_mutations_changing_the_id", "block_mutations_rejected_with_same_id", "parent_state_fields_changed_under_a_v2_block", "partial_signature_hash_index_cases"},
 	})
 }
